@@ -59,6 +59,7 @@ def cleanup_work(prop: str):
 def scratch_dir(prefix: str = "vf") -> Path:
     """A realpath-resolved scratch directory outside /repo and /verif; caller removes it."""
     base = os.environ.get("VERIF_SCRATCH") or tempfile.gettempdir()
+    os.makedirs(base, exist_ok=True)
     return Path(tempfile.mkdtemp(prefix=prefix + "-", dir=base)).resolve()
 
 
